@@ -1465,7 +1465,20 @@ def chk_truncate(ctx, case):
     K = Cmp(ctx, "truncate", case, L)
     A = uj(case["A"])
     eps = case.get("eps")
-    e = ATOL if eps is None else eps
+    if case.get("atol") is not None:      # history on the global Settings object: the default threshold is Settings.get_atol() AT CALL TIME
+        from quara.settings import Settings
+        old_atol = Settings.get_atol()
+        Settings.set_atol(case["atol"])
+        try:
+            return _chk_truncate(ctx, case, K, L, A, eps, case["atol"])
+        finally:
+            Settings.set_atol(old_atol)
+    return _chk_truncate(ctx, case, K, L, A, eps, ATOL)
+
+
+def _chk_truncate(ctx, case, K, L, A, eps, atol):
+    from quara.utils import matrix_util as mu
+    e = atol if eps is None else eps
     inband_ = inband(A, e) and not case.get("exact")      # 'exact': every number is a small dyadic, |x| < eps is decided without rounding on both sides
     m, n = A.shape
     st, val = M(ctx).try_call("c02.truncate", [m, n], [float(e)] + cflat(A))
@@ -1521,7 +1534,10 @@ def sub_truncate(ctx):
             A[i, j] = A[i, j].real + 1j * val
         else:
             A[i, j] = val
-        cases.append({"A": jc(A), "eps": eps, "gen": "exact-" + which, "complex": True, "exact": True})
+        if rng.random() < 0.4:      # the same probe through the DEFAULT threshold after Settings.set_atol(2^-20) (restored afterwards)
+            cases.append({"A": jc(A), "eps": None, "atol": eps, "gen": "exact-settings-" + which, "complex": True, "exact": True})
+        else:
+            cases.append({"A": jc(A), "eps": eps, "gen": "exact-" + which, "complex": True, "exact": True})
     ctx.sample("truncate", cases[0])
     ctx.run_cases("truncate", chk_truncate, decorate(ctx, cases, opts=False))
 
@@ -1593,6 +1609,53 @@ def _timed(name, fn):
     return g
 
 
+WIDEN_ON_BROKEN_TIE = ("state", "povm", "gate_var", "truncate")
+
+
+def regen_glue(ctx):
+    """translator tie (protocol of flow.regen_check, with this property's own translator gen/c02_py2coq.py): regenerate the Gallina text of the 25
+    glue functions (wrappers, call skeletons, truncate_hs threshold logic - list TARGETS in the translator) from the CURRENT source, compile it and
+    re-check coq/gen/C02_Equiv.v (call skeletons; transported round trips; regenerated truncate_hs = model).  returns (ok, info)"""
+    import os, re, shutil, subprocess, sys
+    import runner
+    V = runner.V
+    scratch = os.path.join(ctx.scratch, "gen")
+    os.makedirs(scratch, exist_ok=True)
+    gen_v = os.path.join(scratch, "Gen_c02_glue.v")
+    equiv = os.path.join(V, "coq", "gen", "C02_Equiv.v")
+    src = open(equiv).read()
+    src_nc = re.sub(r"\(\*.*?\*\)", " ", src, flags=re.S)
+    thms = re.findall(r"^\s*Theorem\s+([\w']+)", src_nc, flags=re.M)
+    box = {"thms": thms, "ok": False, "axioms": {}}
+    r = subprocess.run([sys.executable, os.path.join(V, "gen", "c02_py2coq.py"), os.environ.get("VERIF_REPO", "/repo"), gen_v],
+                       capture_output=True, text=True, timeout=120)
+    if r.returncode != 0:
+        return box, {"theorem": thms[0], "error": "translator rejected the source (outside its subset): " + (r.stdout + r.stderr)[-600:]}
+    q = ["-Q", os.path.join(V, "coq", "theories"), "QV", "-Q", scratch, "QVGen"]
+    r = subprocess.run(["timeout", "300", "coqc"] + q + [gen_v], capture_output=True, text=True)
+    if r.returncode != 0:
+        return box, {"theorem": thms[0], "error": "regenerated glue does not compile: " + (r.stdout + r.stderr)[-600:]}
+    dst = os.path.join(scratch, "C02_Equiv.v")
+    shutil.copy(equiv, dst)
+    r = subprocess.run(["timeout", "600", "coqc"] + q + [dst], capture_output=True, text=True)
+    out = r.stdout + r.stderr
+    if r.returncode != 0:
+        m_ = re.search(r"line (\d+), characters", out)
+        thm = None
+        if m_:
+            upto = "\n".join(src.splitlines()[:int(m_.group(1))])
+            names = re.findall(r"^\s*(?:Theorem|Lemma|Definition)\s+([\w']+)", upto, flags=re.M)
+            thm = names[-1] if names else None
+        return box, {"theorem": thm, "error": out[-800:]}
+    blocks = runner.parse_assumptions(out)
+    bad = [a for closed, axs in blocks for a in axs if a not in runner.ALLOWED_AXIOMS and a.split(".")[-1] not in runner.ALLOWED_AXIOMS]
+    if len(blocks) != len(thms) or bad:
+        return box, {"theorem": thms[0], "error": "assumption gate on regenerated proofs: %d blocks / %d theorems, disallowed %s" % (len(blocks), len(thms), bad)}
+    box["ok"] = True
+    box["axioms"] = {t: ("closed" if closed else sorted(set(axs))) for t, (closed, axs) in zip(thms, blocks)}
+    return box, {}
+
+
 def _run(ctx, subchecks):
     """flow.standard_run with the recompilation of Props/C02.v (a coqc subprocess; runner.check_props only writes ctx.theorems / obligations /
     discharged / axioms, which no sub-check touches) running in a thread WHILE the correspondences run; the outcome is handled exactly as in
@@ -1600,6 +1663,11 @@ def _run(ctx, subchecks):
     import threading
     import runner
     box = {}
+    # the translator tie first (about 3 s): if it is broken the sub-checks that exercise the translated glue run with the thorough-tier counts
+    gbox, ginfo = regen_glue(ctx)
+    ctx.tie_broken = not gbox["ok"]
+    if ctx.tie_broken:
+        ctx.note("regenerated-glue obligations (gen/c02_py2coq.py / coq/gen/C02_Equiv.v) not discharged: %s - sweeps of %s widened" % (str(ginfo)[:400], ", ".join(WIDEN_ON_BROKEN_TIE)))
 
     def props():
         try:
@@ -1612,11 +1680,26 @@ def _run(ctx, subchecks):
     try:
         for name, fn in subchecks:
             if ctx.only is None or name in ctx.only:
-                fn(ctx)
+                if ctx.tie_broken and name in WIDEN_ON_BROKEN_TIE and ctx.tier == "quick":
+                    ctx.tier = "thorough"
+                    try:
+                        fn(ctx)
+                    finally:
+                        ctx.tier = "quick"
+                else:
+                    fn(ctx)
     finally:
         th.join()
+    # account for the regenerated obligations (after check_props has set the static counts)
+    ctx.theorems = list(ctx.theorems) + [t for t in gbox["thms"] if t not in ctx.theorems]
+    ctx.obligations += len(gbox["thms"])
+    if gbox["ok"]:
+        ctx.discharged += len(gbox["thms"])
+        ctx.axioms.update(gbox["axioms"])
     ctx.note("wall theorems (concurrent with the sub-checks): finished after %.1f s" % (__import__("time").time() - t0))
     ok, info = box["res"]
+    if ok and ctx.tie_broken:
+        ok, info = False, ginfo
     if not ok:
         ctx.discharged = min(ctx.discharged, ctx.obligations - 1)
     if not ok and not ctx.violations:
